@@ -352,7 +352,8 @@ def main():
             # lines an option file may carry and the converter skips: a single-component decay line, a particle alias line
             body2.append(body2[0].split()[0].replace("D0{", "D0[P]{", 1) + "   0   0.362058   0.00237314")
             body2.append("Kbar(1)(1400)- = K(1)(1400)bar-")
-        texts.append("\n".join(ev + (["FastCoherentSum::UseCartesian 1"] if i % 3 == 1 else []) + body2 + rest2) + "\n")
+        # (every third text ends in a commented last line without a final line break)
+        texts.append("\n".join(ev + (["FastCoherentSum::UseCartesian 1"] if i % 3 == 1 else []) + body2 + rest2) + ("   # the last line" if i % 3 == 0 else "\n"))
     cases = []
     for i, t in enumerate(texts):
         f = d / f"model_{i}.txt"
